@@ -52,6 +52,13 @@ func (p *Parser) Const() (result Value) {
 }
 
 func (p *Parser) constant() Value {
+	p.NestIn()
+	val := p.constant2()
+	p.NestOut()
+	return val
+}
+
+func (p *Parser) constant2() Value {
 	switch p.Token {
 	case tok.String:
 		return p.string()
